@@ -29,7 +29,7 @@ theorem sB_phi_assign (f : Sem) (j : Job) (cl : Cluster) (s s' : Sys) (a : Asg) 
     obtain ⟨hd, hfi, hmem, hlen⟩ := sB_assignOne j cl s.ctl c a prep heq
     have hd0 := h1.once.comp a.task hmem
     have hlt := h2.comp_valid a.task hmem
-    have hfr := sF_applyCmds_frame j cl (actCmds a prep) s.env
+    have hfr := sL_applyCmds_frame j cl (actCmds a prep) s.env
     have hout := sB_applyCmds_out j cl (actCmds a prep) s.env
     have hio := sB_actCmds_io a prep
     simp only [sB_phi, hfi, hfr.1, hfr.2, hout, hd]
@@ -65,7 +65,7 @@ theorem sB_phi_recv (f : Sem) (j : Job) (cl : Cluster) (s s' : Sys) (evs : List 
     cases hs
     refine ⟨rfl, ?_⟩
     have hl := sB_takeEvents_length evs s.env.pending pend hte
-    have hfr := sF_markDelivered_frame evs { s.env with pending := pend }
+    have hfr := sL_markDelivered_frame evs { s.env with pending := pend }
     have hout := sB_markDelivered_out evs { s.env with pending := pend }
     have hpos : 0 < evs.length := by
       cases evs with
@@ -164,7 +164,7 @@ theorem sB_phi_flushF1 (f : Sem) (j : Job) (cl : Cluster) (s s' : Sys) (h3 : Inv
     refine ⟨rfl, ?_⟩
     have hok := h3.fetchQ_ok ds h (by rw [hq]; simp)
     have hlt := sB_unissued_lt j.ext s.ctl.fetchIssued ds hok.1 hok.2.2.1
-    have hfr := sF_applyCmd_frame j cl s.env (.fetch ds h)
+    have hfr := sL_applyCmd_frame j cl s.env (.fetch ds h)
     have hout := sB_applyCmd_out j cl s.env (.fetch ds h)
     simp only [sB_phi, considerPurge_dispatched, considerPurge_fetchIssued, hfr.1, hfr.2, hout, sB_cmdIO]
     omega
@@ -187,7 +187,7 @@ theorem sB_phi_flushP1 (f : Sem) (j : Job) (cl : Cluster) (s s' : Sys)
       have hcm := purgeHosts_cmds cl ds cl.hosts s.ctl c cmds hph
       have hd := purgeHosts_dispatched _ _ _ _ _ _ hph
       have hfi := purgeHosts_fetchIssued _ _ _ _ _ _ hph
-      have hfr := sF_applyCmds_frame j cl cmds s.env
+      have hfr := sL_applyCmds_frame j cl cmds s.env
       have hout := sB_applyCmds_out j cl cmds s.env
       rw [sB_purgeCmds_io ds cmds hcm] at hout
       simp only [sB_phi, hd, hfi, hfr.1, hfr.2, hout]
